@@ -2,6 +2,7 @@ package imapnum
 
 import (
 	"fmt"
+	"sort"
 	"strconv"
 	"strings"
 )
@@ -298,12 +299,38 @@ func parseNumRange(v string) (Range, error) {
 // ParseSet returns a new Set after parsing the set string.
 func ParseSet(set string) (Set, error) {
 	var s Set
+	var ranges []Range
 	for _, sv := range strings.Split(set, ",") {
 		r, err := parseNumRange(sv)
 		if err != nil {
 			return s, err
 		}
+		ranges = append(ranges, r)
+	}
+	// Insert in ascending order: an insertion in front of existing ranges is
+	// linear in the size of the set, which makes a long descending list
+	// quadratic.
+	sort.SliceStable(ranges, func(i, j int) bool {
+		return rangeLow(ranges[i]) < rangeLow(ranges[j])
+	})
+	for _, r := range ranges {
 		s.AddRange(r.Start, r.Stop)
 	}
 	return s, nil
+}
+
+// rangeLow returns the lower bound of a range as written ("*" counts as the
+// largest number).
+func rangeLow(r Range) uint64 {
+	lo, hi := uint64(r.Start), uint64(r.Stop)
+	if lo == 0 {
+		lo = 1 << 32
+	}
+	if hi == 0 {
+		hi = 1 << 32
+	}
+	if hi < lo {
+		return hi
+	}
+	return lo
 }
